@@ -243,8 +243,10 @@ class P3(sm.P2):
             while self.isp("|"):
                 self.eat()
                 pats.append(self.pattern())
+            guard = None
             if self.isid("if"):
-                self.err("match guard")
+                self.eat()
+                guard = self.expr(no_struct=True)
             self.expect_p("=>")
             if self.isp("{"):
                 body = self.block()
@@ -256,12 +258,16 @@ class P3(sm.P2):
                     self.eat()
                 elif not self.isp("}"):
                     self.err("expected ',' after match arm")
-            arms.append((pats[0] if len(pats) == 1 else ("por", pats), body))
+            pat = pats[0] if len(pats) == 1 else ("por", pats)
+            arms.append((("pguard", pat, guard) if guard is not None else pat, body))
         self.expect_p("}")
         return ("match", scrut, arms, line)
 
     def pattern(self):
         tk = self.peek()
+        if tk.kind == "NUM":
+            self.eat()
+            return ("pnum", tk.val[0])
         # Path::Variant(a, b) with several sub-patterns
         if tk.kind == "ID" and tk.val not in ("mut", "_", "Some", "None") and self.isp("::", 1):
             path = [self.eat().val]
@@ -928,6 +934,15 @@ FREE_FNS = {"check_template_args": ("list leaf -> list (option argv) -> rng -> M
             "resolve_class_ref_as_class": ("classref -> M N", [("node", "ClassRef")], "RecordId"),
             "resolve_class_ref_as_multiclass": ("classref -> M N", [("node", "ClassRef")], "MulticlassId")}
 NODES.update({
+    "BitsValue": ([], {"value_list": ("Some v_bvs", ("opt", "ValueList"))}),
+    "ListValue": ([], {"value_list": ("Some v_lvs", ("opt", "ValueList"))}),
+    "ValueList": ([], {"values": ("%s", ("list", "Value"))}),
+    "DagArgList": ([], {}),
+    "DagValue": ([], {"arg_list": ("Some (snd (dag_split v_dvs))", ("opt", "DagArgList"))}),
+    "CondOperator": ([], {"clauses": ("cond_split v_cvs", ("list", "CondClause"))}),
+    "CondClause": ([], {"condition": ("fst %s", ("opt", "Value")), "value": ("snd %s", ("opt", "Value"))}),
+    "SliceSuffix": ([], {"is_single_element": ("v_single", "bool")}),
+    "FieldSuffix": ([], {"name": ("Some v_fi", ("opt", "Identifier"))}),
     "Def": ([("n_nm", "option value"), ("n_r", "rng"), ("n_ps", "list classref"), ("n_b", "list item")],
             {"name": ("n_nm", ("opt", "Value")), "record_body": ("Some (n_ps, n_b)", ("opt", "RecordBody"))}),
     "Defm": ([("n_nm", "option value"), ("n_r", "rng"), ("n_ps", "list classref")],
@@ -939,7 +954,7 @@ NODES.update({
                  {"name": ("Some n_i", ("opt", "Identifier")), "arg_value_list": ("Some n_args", ("opt", "ArgValueList"))}),
     "ParentClassList": ([("n_ps", "list classref")], {"classes": ("n_ps", ("list", "ClassRef"))}),
     "Value": ([("n_v", "value")], {"inner_values": ("value_inners %s", ("list", "InnerValue"))}),
-    "InnerValue": ([("n_x", "inner")], {"simple_value": ("Some (inner_simple %s)", ("opt", "SimpleValue")),
+    "InnerValue": ([("n_x", "inner")], {"simple_value": ("Some (inner_simple %s)", ("opt", "SimpleValueName")),
                                         "suffixes": ("inner_sufs %s", ("list", "ValueSuffix"))}),
     "BitsType": ([], {"length": ("Some %s", ("opt", "Integer"))}),          # %s = the bound variable (the CoreAst field itself)
     "ListType": ([], {"inner_type": ("Some %s", ("opt", "Type"))}),
@@ -956,12 +971,13 @@ NODE_COQ = {"Identifier": "ident", "StatementList": "list stmt", "Statement": "s
             "TemplateArgList": "list targ", "TemplateArgDecl": "targ", "RecordBody": "(list classref * list item)",
             "ParentClassList": "list classref", "Body": "list item", "BodyItem": "item", "LetList": "list value",
             "LetItem": "value", "ForeachIterator": "(ident * feinit)", "ForeachIteratorInit": "feinit", "Integer": "N",
-            "ArgValue": "arg", "ArgValueList": "list arg", "ClassRef": "classref"}
+            "ArgValue": "arg", "ArgValueList": "list arg", "ClassRef": "classref", "InnerValue": "inner", "SimpleValue": "simple",
+            "ValueSuffix": "suffix", "BangOperator": "(bop * option (ty * rng) * list value * rng)"}
 IX_RET = {"StatementList": "unit", "Statement": "unit", "Value": "mty", "Type": "mty", "TemplateArgList": "unit",
           "TemplateArgDecl": "unit", "RecordBody": "unit", "ParentClassList": "unit", "Body": "unit", "BodyItem": "unit",
           "LetList": "unit", "LetItem": "unit", "ForeachIterator": "(name * N)", "ForeachIteratorInit": "mty", "Integer": "N",
-          "ArgValue": "argv", "ArgValueList": "(list (option argv))"}
-IX_TY = {"ArgValue": "argv", "ArgValueList": "avs", "Value": "mty", "Type": "mty", "ForeachIteratorInit": "mty", "Integer": "i64", "ForeachIterator": "(name * N)"}
+          "ArgValue": "argv", "ArgValueList": "(list (option argv))", "InnerValue": "mty", "SimpleValue": "mty", "BangOperator": "mty"}
+IX_TY = {"BangOperator": "mty", "InnerValue": "mty", "SimpleValue": "mty", "ArgValue": "argv", "ArgValueList": "avs", "Value": "mty", "Type": "mty", "ForeachIteratorInit": "mty", "Integer": "i64", "ForeachIterator": "(name * N)"}
 # enum nodes: variant -> (CoreAst constructor pattern, bound node type or None, how the rendering of that impl is called)
 ENUM_NODES = {
     "Statement": ("stmt", [("Include", "SInclude r t", ("Include", "r t")), ("Assert", "SAssert c m", ("Assert", "c m")),
@@ -978,7 +994,14 @@ ENUM_NODES["BodyItem"] = ("item", [("FieldDef", "IField t i v", ("FieldDef", "t 
 VALUE_ENUMS = {"Type": {"BitType": ("TyBit", None), "IntType": ("TyInt", None), "StringType": ("TyString", None),
                         "CodeType": ("TyCode", None), "DagType": ("TyDag", None), "BitsType": ("TyBits", "BitsType"),
                         "ListType": ("TyList", "ListType"), "ClassId": ("TyClass", "ClassId")},
-               "SimpleValue": {"Identifier": ("SId", "Identifier")},
+               "SimpleValueName": {"Identifier": ("SId", "Identifier")},
+               "SimpleValue": {"Integer": ("SInt", None), "String": ("SString", None), "Code": ("SCode", None), "Boolean": ("SBool", None),
+                               "Uninitialized": ("SUninit", None), "Bits": ("SBits v_bvs", "BitsValue"), "List": ("SList v_lvs", "ListValue"),
+                               "Dag": ("SDag v_dvs", "DagValue"), "Identifier": ("SId", "Identifier"),
+                               "ClassValue": ("SClassVal n_i n_args n_r", "ClassRef"),
+                               "BangOperator": ("SBang v_op v_annot v_ovs v_or", "BangOperator"), "CondOperator": ("SCond v_cvs", "CondOperator")},
+               "ValueSuffix": {"RangeSuffix": ("SufRange", None), "SliceSuffix": ("SufSlice v_single", "SliceSuffix"),
+                               "FieldSuffix": ("SufField v_fi v_fr", "FieldSuffix")},
                "ForeachIteratorInit": {"RangeList": ("FeRange", None), "RangePiece": ("FeRange", None), "Value": ("FeValue", "Value")}}
 MESSAGES = [("include file not found", "DIncludeNotFound"), ("class not found", "DClassNotFound"),
             ("multiclass not found", "DMulticlassNotFound"), ("symbol not found", "DSymbolNotFound"),
@@ -1006,6 +1029,8 @@ class IxGen:
         raise Refuse("%s:%d: %s" % (INDEX, line or 0, msg))
 
     def ix(self, node):
+        if node == "SimpleValueName":
+            node = "SimpleValue"
         if node not in IX_RET:
             self.no(0, "no index function for node type %s" % node)
         if node not in self.used:
@@ -1051,6 +1076,8 @@ class IxGen:
                     return "%s %s" % (tab[f[1][1]][0], " ".join(cs)), "skind"
             if name == "Type::Bits" and len(args) == 1:
                 c, t = self.tr(args[0], env)
+                if t == "nat":
+                    return "MBits (N.of_nat %s)" % atom(c), "mty"
                 if t not in ("usize", "i64"):
                     self.no(line, "Type::Bits(%s)" % (t,))
                 return "MBits %s" % atom(c), "mty"
@@ -1100,6 +1127,8 @@ class IxGen:
                     return "mkLeaf LDefm %s MUnknown false %s" % (cs[0], cs[1]), "leaf"
                 return "mkLeaf LDefset %s %s false %s" % (cs[0], cs[1], cs[2]), "leaf"
             self.no(line, "call of %s" % name)
+        if k == "str":
+            return "[%s]" % "; ".join(str(ord(ch)) for ch in e[1]), "strlit"
         if k == "tuple":
             cs = [self.tr(x, env) for x in e[1]]
             return "(" + ", ".join(c for c, _ in cs) + ")", ("tuple", [t for _, t in cs])
@@ -1113,9 +1142,15 @@ class IxGen:
             b, tb = self.tr(e[3], env)
             if ta == tb and ta in ID_SYM:
                 return "%s =? %s" % (atom(a), atom(b)), "bool"
+            if ta == tb == "mty":
+                return "mty_eqb %s %s" % (atom(a), atom(b)), "bool"
+            if ta == "name" and tb == "strlit":
+                return "name_eqb %s %s" % (atom(a), b), "bool"
             self.no(e[4], "== on %s / %s" % (ta, tb))
         if k == "field":
             c, t = self.tr(e[1], env)
+            if t == "leafV" and e[2] == "typ":
+                return "lf_ty %s" % atom(c), "mty"
             if t == "rng" and e[2] == "range":
                 return c, "rng"                     # FileRange.range: the same range (the file is re-attached by ctx.error)
             self.no(e[3], "field .%s of %s" % (e[2], t))
@@ -1123,6 +1158,46 @@ class IxGen:
             recv, m, args, line = e[1], e[2], e[3], e[4]
             if m in ("clone", "cloned"):
                 return self.tr(recv, env)
+            if m == "resolve_id" and len(args) == 1 and recv[0] == "path" and recv[1] == ["ctx"]:
+                a, ta = self.tr(args[0], env)
+                if ta != "name":
+                    self.no(line, "resolve_id(%s)" % (ta,))
+                return "resolve_id %s %s" % (self.state_var(), atom(a)), ("opt", "SymbolId")
+            # dag.operator().and_then(|it| it.value()) : the value of the operator, if any
+            if m == "and_then" and recv[0] == "mcall" and recv[2] == "operator" and len(args) == 1 and args[0][0] == "closure":
+                c0, t0 = self.tr(recv[1], env)
+                cl = args[0]
+                ok = (t0 == ("node", "DagValue") and len(cl[1]) == 1 and cl[1][0][0] == "pbind" and cl[2][0] == "mcall" and cl[2][2] == "value"
+                      and cl[2][1] == ("path", [cl[1][0][1]], cl[2][1][2]) and not cl[2][3])
+                if not ok:
+                    self.no(line, "dag operator idiom")
+                return "fst (dag_split v_dvs)", ("opt", ("node", "Value"))
+            # arg_list.args().filter_map(|it| it.value()) : the values of the dag arguments
+            if m == "filter_map" and recv[0] == "mcall" and recv[2] == "args" and len(args) == 1 and args[0][0] == "closure":
+                c0, t0 = self.tr(recv[1], env)
+                cl = args[0]
+                ok = (t0 == ("node", "DagArgList") and len(cl[1]) == 1 and cl[1][0][0] == "pbind" and cl[2][0] == "mcall" and cl[2][2] == "value"
+                      and cl[2][1] == ("path", [cl[1][0][1]], cl[2][1][2]) and not cl[2][3])
+                if not ok:
+                    self.no(line, "dag argument idiom")
+                return c0, ("list", ("node", "Value"))
+            if m == "into_iter" and not args:
+                return self.tr(recv, env)
+            if m == "map" and len(args) == 1 and args[0][0] == "closure":
+                c0, t0 = self.tr(recv, env)
+                cl = args[0]
+                if isinstance(t0, tuple) and t0[0] == "opt" and len(cl[1]) == 1 and cl[1][0][0] == "pbind":
+                    env2 = dict(env)
+                    env2[cl[1][0][1]] = ("v_" + cl[1][0][1], t0[1])
+                    b, bt = self.tr(cl[2], env2)
+                    return "option_map (fun v_%s => %s) %s" % (cl[1][0][1], b, atom(c0)), ("opt", bt)
+                self.no(line, "map on %s" % (t0,))
+            if m == "or" and len(args) == 1:
+                c0, t0 = self.tr(recv, env)
+                d, dt = self.tr(args[0], env)
+                if not (isinstance(t0, tuple) and t0[0] == "opt") or dt != t0:
+                    self.no(line, "or(%s) on %s" % (dt, t0))
+                return "match %s with Some x => Some x | None => %s end" % (c0, d), t0
             if m == "ok" and not args and recv[0] == "mcall" and recv[2] == "try_into" and not recv[3]:
                 c, t = self.tr(recv[1], env)
                 if t != "i64":
@@ -1182,6 +1257,8 @@ class IxGen:
                     return ex, self.node_ty(rt)
                 if T == "Value" and m == "syntax" and not args:
                     return c, ("syntax", "Value")
+                if T == "FieldSuffix" and m == "syntax" and not args:
+                    return "v_fr", ("syntax", "range")
                 if T in ("Include", "Def", "Defm") and m == "syntax" and not args:
                     return "n_r", ("syntax", "range")
                 if T in ("PositionalArgValue", "NamedArgValue") and m == "syntax" and not args:
@@ -1209,6 +1286,16 @@ class IxGen:
                     self.no(line, "can_be_casted_to(.., %s)" % (tb,))
                 S = self.state_var()
                 return "can_cast %s %s %s" % (S, atom(c), atom(b)), "bool"
+            if isinstance(t, tuple) and t[0] == "list" and m == "count" and not args:
+                return "length %s" % atom(c), "nat"
+            if t == "mty" and m == "element_typ" and not args:
+                return "element_typ %s" % atom(c), ("opt", "mty")
+            if t == "mty" and m == "find_field" and len(args) == 2:
+                b, tb = self.tr(args[1], env)
+                if tb != "name":
+                    self.no(line, "find_field(.., %s)" % (tb,))
+                S = self.state_var()
+                return "ty_find_field %s %s %s" % (S, atom(c), atom(b)), ("opt", "RecordFieldId")
             if isinstance(t, tuple) and t[0] == "list" and m == "next" and not args:
                 return "hd_error %s" % atom(c), ("opt", t[1])
             if isinstance(t, tuple) and t[0] == "opt" and m == "is_some" and not args:
@@ -1268,7 +1355,7 @@ class IxGen:
                 if not (isinstance(t, tuple) and t[0] == "node"):
                     self.no(line, ".index(ctx) on %s" % (t,))
                 call = "%s %s" % (self.ix(t[1]), atom(c))
-                return pre, call, IX_TY.get(t[1], "unit")
+                return pre, call, IX_TY.get("SimpleValue" if t[1] == "SimpleValueName" else t[1], "unit")
             if m == "unwrap_or" and len(args) == 1:
                 pre, inner, it = self.m_expr(recv, env)
                 d, dt = self.tr(args[0], env)
@@ -1409,6 +1496,12 @@ class IxGen:
             q = "loc%d" % self.qn
             env[q] = (q, "rng")
             return pre + "%s <- (%s) ;; " % (q, m), ("path", [q], e[3])
+        if e and e[0] == "field" and e[2] == "typ" and e[1][0] == "path" and len(e[1][1]) == 1 and e[1][1][0] in env \
+                and env[e[1][1][0]][1] == ("leafH",):
+            self.qn = getattr(self, "qn", 0) + 1
+            lf = "lf%d" % self.qn
+            env[lf + "_ty"] = ("lf_ty %s" % lf, "mty")
+            return "%s <- leaf_of %s ;; " % (lf, atom(env[e[1][1][0]][0])), ("path", [lf + "_ty"], e[3])
         if e and e[0] in ("closure", "block", "match", "if", "iflet"):
             return "", e
         pre, out = "", []
@@ -1443,6 +1536,48 @@ class IxGen:
                 pre, x = self.hoist(tail[2][0], env)
                 p2, c, t = self.tr_st(x, env)
                 return indent + pre + p2 + "ret %s" % atom(c)
+            if tail[0] == "if" and tail[3] is not None:
+                pre, c, t = self.tr_st(tail[1], env)
+                if t != "bool":
+                    self.no(tail[4], "condition of type %s" % (t,))
+                a, b = tail[2], tail[3]
+                return "%s%sif %s then\n%s\n%selse\n%s" % (indent, pre, c, self.seq(a[1], 0, a[2], env, indent + "    "), indent,
+                                                           self.seq(b[1], 0, b[2], env, indent + "    "))
+            if tail[0] == "block":
+                return self.seq(tail[1], 0, tail[2], env, indent)
+            if tail[0] == "match" and any(p[0] == "pnum" for p, _ in tail[2]):
+                pre, c, t = self.tr_st(tail[1], env)
+                if t != "nat":
+                    self.no(tail[3], "numeric match on %s" % (t,))
+                texts = []
+                for pat, body in tail[2]:
+                    if pat[0] == "pnum" and pat[1] in (0, 1, 2):
+                        head = ["O", "S O", "S (S O)"][pat[1]]
+                    elif pat[0] == "pwild":
+                        head = "_"
+                    else:
+                        self.no(tail[3], "numeric pattern")
+                    texts.append("%s| %s =>\n%s" % (indent, head, self.seq(body[1], 0, body[2], env, indent + "    ")))
+                return "%s%smatch %s with\n%s\n%send" % (indent, pre, c, "\n".join(texts), indent)
+            if tail[0] == "match" and tail[2] and tail[2][0][0][0] == "pvariant" and tail[2][0][0][1][0] == "Type":
+                c, t = self.tr(tail[1], env)
+                if t != "mty":
+                    self.no(tail[3], "Type match on %s" % (t,))
+                texts = []
+                for pat, body in tail[2]:
+                    if pat[0] == "pvariant" and pat[1] == ["Type", "Bits"] and len(pat[2]) == 1 and pat[2][0][0] == "pwild":
+                        head = "MBits _"
+                    elif pat[0] == "pvariant" and len(pat[1]) == 2 and pat[1][0] == "Type" and pat[1][1] in TYPE_CONSTS and not pat[2]:
+                        head = TYPE_CONSTS[pat[1][1]]
+                    elif pat[0] == "pwild":
+                        head = "_"
+                    else:
+                        self.no(tail[3], "Type pattern")
+                    texts.append("%s| %s =>\n%s" % (indent, head, self.seq(body[1], 0, body[2], env, indent + "    ")))
+                return "%smatch %s with\n%s\n%send" % (indent, c, "\n".join(texts), indent)
+            if tail[0] == "match" and tail[1][0] == "mcall" and tail[1][2] == "symbol" and tail[1][1][0] == "field" \
+                    and tail[1][1][2] == "symbol_map":
+                return self.symbol_match(tail, env, indent)
             if tail[0] == "match":
                 T = env["self"][1][1] if "self" in env and isinstance(env["self"][1], tuple) else None
                 if tail[1][0] == "path" and tail[1][1] == ["self"] and T in VALUE_ENUMS:
@@ -1507,9 +1642,10 @@ class IxGen:
             if e[0] == "mcall" and e[2] == "add_reference" and len(e[3]) == 2 and e[1][0] == "field" and e[1][2] == "symbol_map":
                 a, ta = self.tr(e[3][0], env)
                 b, tb = self.tr(e[3][1], env)
-                if ta not in ID_SYM or tb != "rng":
+                if (ta not in ID_SYM and ta != "SymbolId") or tb != "rng":
                     self.no(line, "add_reference(%s, %s)" % (ta, tb))
-                return "%s(add_reference (%s %s) %s) ;;\n%s" % (indent, ID_SYM[ta], atom(a), atom(b), rest())
+                sym = atom(a) if ta == "SymbolId" else "(%s %s)" % (ID_SYM[ta], atom(a))
+                return "%s(add_reference %s %s) ;;\n%s" % (indent, sym, atom(b), rest())
             pre0, e2 = self.hoist(e, env)
             pre, m, t = self.m_expr(e2, env)
             return "%s%s%s(%s) ;;\n%s" % (indent, pre0, pre, m, rest())
@@ -1519,6 +1655,22 @@ class IxGen:
             return indent + "ret tt"
         if k == "let":
             pat, ty, e, els = s[1], s[2], s[3], s[4]
+            while pat[0] == "pmut":
+                pat = pat[1]
+            # let x = <mutable iterator variable>.next()?;   (advances the iterator)
+            if els is None and pat[0] == "pbind" and e[0] == "try" and e[1][0] == "mcall" and e[1][2] == "next" and not e[1][3] \
+                    and e[1][1][0] == "path" and len(e[1][1][1]) == 1 and e[1][1][1][0] in env \
+                    and isinstance(env[e[1][1][1][0]][1], tuple) and env[e[1][1][1][0]][1][0] == "list":
+                it = e[1][1][1][0]
+                ic, itp = env[it]
+                env[pat[1]] = ("v_" + pat[1], itp[1])
+                return "%sv_%s <- lift (hd_error %s) ;;\n%slet %s := tl %s in\n%s" % (indent, pat[1], ic, indent, ic, ic, rest())
+            # let o = x.index(ctx);   (no `?`: the Option is kept)
+            if els is None and pat[0] == "pbind" and e[0] == "mcall" and e[2] == "index" and len(e[3]) == 1 and e[3][0][0] == "path" \
+                    and e[3][0][1] == ["ctx"]:
+                pre, m, t = self.m_expr(e, env)
+                env[pat[1]] = ("v_" + pat[1], ("opt", t))
+                return "%s%sv_%s <- try_ (%s) ;;\n%s" % (indent, pre, pat[1], m, rest())
             if els is not None:
                 # let Some(x) = <Option read from the context> else { ..; return v; };
                 if pat[0] != "psome" or pat[1][0] != "pbind" or els[2] is not None or not els[1] or els[1][-1][0] != "return":
@@ -1551,6 +1703,19 @@ class IxGen:
                     return "%s%s <- state ;; %s <- lift (nthN (%s %s) %s) ;;\n%slet v_%s := targ_leaves %s (%s %s) in\n%s" % (
                         indent, sv, rc, "s_recs" if rec else "s_mcs", sv, atom(env[x[1][0]][0]), indent, pat[1], sv,
                         "rc_targs" if rec else "mc_targs", rc, rest())
+                # iter.filter_map(|x| x.index(ctx)).collect()   (eager: every element is indexed, the Some results are kept)
+                if chain[:2] == ["collect", "filter_map"] and len(q[1][3]) == 1 and q[1][3][0][0] == "closure":
+                    cl = q[1][3][0]
+                    preh, src_it = self.hoist(q[1][1], env)
+                    c, t = self.tr(src_it, env)
+                    ok = (isinstance(t, tuple) and t[0] == "list" and isinstance(t[1], tuple) and t[1][0] == "node" and len(cl[1]) == 1
+                          and cl[1][0][0] == "pbind" and cl[2][0] == "mcall" and cl[2][2] == "index"
+                          and cl[2][1] == ("path", [cl[1][0][1]], cl[2][1][2]))
+                    if not ok:
+                        self.no(line, "filter_map(..).collect() form")
+                    env[pat[1]] = ("v_" + pat[1], ("list", IX_TY.get(t[1][1], "unit")))
+                    return "%s%sos <- mapM_opt (fun x => %s x) %s ;;\n%slet v_%s := opt_flatten os in\n%s" % (
+                        indent, preh, self.ix(t[1][1]), atom(c), indent, pat[1], rest())
                 # iter.map(|x| x.index(ctx)).collect()
                 if chain[:2] == ["collect", "map"] and len(q[1][3]) == 1 and q[1][3][0][0] == "closure":
                     cl = q[1][3][0]
@@ -1706,11 +1871,20 @@ class IxGen:
             return "%s%sif %s then\n%s\n%selse\n%s" % (indent, pre, c, branch(e[2]), indent, branch(e[3]))
         if k == "for":
             pat, it, body = s[1], s[2], s[3]
+            preh, it = self.hoist(it, env)
+            if preh:
+                return indent + preh + "\n" + self.seq([("for", pat, it, body, line)] + stmts[i + 1:], 0, tail, env, indent)
             c, t = self.tr(it, env)
             if not (isinstance(t, tuple) and t[0] == "list") or pat[0] != "pbind" or body[2] is not None:
                 self.no(line, "for form")
             env2 = dict(env)
             env2[pat[1]] = ("v_" + pat[1], t[1])
+            if len(body[1]) == 1 and body[1][0][0] == "assign" and body[1][0][1] == "=" and body[1][0][2][0] == "path" \
+                    and len(body[1][0][2][1]) == 1 and body[1][0][2][1][0] in env and body[1][0][3][0] == "try":
+                acc = body[1][0][2][1][0]
+                ac, at = env[acc]
+                btxt = self.seq([], 0, body[1][0][3][1], env2, indent + "    ")
+                return "%s%s <- foldM (fun %s v_%s =>\n%s) %s %s ;;\n%s" % (indent, ac, ac, pat[1], btxt, atom(c), ac, rest())
             simple = all(s2[0] == "expr" and not (s2[1][0] == "mcall" and s2[1][1][0] == "path" and len(s2[1][1][1]) == 1
                                                     and isinstance(env2.get(s2[1][1][1][0], (0, 0))[1], tuple)
                                                     and env2[s2[1][1][1][0]][1][0] == "mutH") for s2 in body[1])
@@ -1729,6 +1903,59 @@ class IxGen:
                 self.no(line, "statements after return")
             return self.seq([], 0, s[1], env, indent)
         self.no(line, "statement %s" % k)
+
+    def symbol_match(self, e, env, indent):
+        """match ctx.symbol_map.symbol(id) { Symbol::X(..) => .. }  over the three arenas of Scope.v: a Record is a class or a def
+        (the guard `record.kind == RecordKind::Def`), TemplateArgument / RecordField / Variable / Defset / Defm are leaves"""
+        line = e[3]
+        a, ta = self.tr(e[1][3][0], env)
+        if ta != "SymbolId":
+            self.no(line, "symbol(%s)" % (ta,))
+        arms = {}
+        for pat, body in e[2]:
+            guard = None
+            if pat[0] == "pguard":
+                guard, pat = pat[2], pat[1]
+            if pat[0] != "pvariant" or len(pat[1]) != 2 or pat[1][0] != "Symbol" or len(pat[2]) != 1:
+                self.no(line, "Symbol pattern")
+            v, sub = pat[1][1], pat[2][0]
+            key = v
+            if v == "Record":
+                if guard is not None:
+                    ok = (sub[0] == "pbind" and guard[0] == "bin" and guard[1] == "==" and guard[2][0] == "field" and guard[2][2] == "kind"
+                          and guard[2][1] == ("path", [sub[1]], guard[2][1][2]) and guard[3][0] == "path" and guard[3][1] == ["RecordKind", "Def"])
+                    if not ok or "Record" in arms:
+                        self.no(line, "the guard of Symbol::Record is expected to be `record.kind == RecordKind::Def`, before the other Record arm")
+                    key = "RecordDef"
+            elif guard is not None:
+                self.no(line, "guard on Symbol::%s" % v)
+            if key in arms:
+                self.no(line, "two arms for Symbol::%s" % key)
+            arms[key] = (sub, body)
+        want = ["RecordDef", "Record", "TemplateArgument", "RecordField", "Variable", "Defset", "Multiclass", "Defm"]
+        if sorted(arms) != sorted(want):
+            self.no(line, "Symbol match does not have exactly the arms %s" % want)
+        ind2, ind3 = indent + "    ", indent + "        "
+
+        def arm(key, leafvar=None):
+            sub, body = arms[key]
+            env2 = dict(env)
+            if sub[0] == "pbind":
+                env2[sub[1]] = (leafvar or "v_r", "leafV" if leafvar else "recV")
+            return self.seq(body[1], 0, body[2], env2, ind3)
+        self.svn = getattr(self, "svn", 0) + 1
+        S = "s%d" % self.svn
+        return ("%s%s <- state ;;\n%smatch %s with\n"
+                "%s| SyRecord rid =>\n%sv_r <- lift (nthN (s_recs %s) rid) ;;\n%sif rc_class v_r then\n%s\n%selse\n%s\n"
+                "%s| SyMc _ =>\n%s\n"
+                "%s| SyLeaf lid =>\n%sv_l <- lift (nthN (s_leaves %s) lid) ;;\n%smatch lf_kind v_l with\n"
+                "%s| LTArg =>\n%s\n%s| LField =>\n%s\n%s| LVar =>\n%s\n%s| LDefset =>\n%s\n%s| LDefm =>\n%s\n%send\n%send"
+                % (indent, S, indent, atom(a),
+                   indent, ind2, S, ind2, arm("Record"), ind2, arm("RecordDef"),
+                   indent, arm("Multiclass"),
+                   indent, ind2, S, ind2,
+                   ind2, arm("TemplateArgument", "v_l"), ind2, arm("RecordField", "v_l"), ind2, arm("Variable", "v_l"),
+                   ind2, arm("Defset", "v_l"), ind2, arm("Defm", "v_l"), ind2, indent))
 
     def match_tail(self, e, env, indent):
         """match <Option read from the context / bound> { Some(x) => {..} None => {..} } as the value of the fn"""
@@ -1764,7 +1991,8 @@ class IxGen:
             ctors = set()
             bound = None
             for q in pats:
-                if q[0] != "pvariant" or q[1][:-1] not in (["Self"], ["ast", T]) or q[1][-1] not in table:
+                if q[0] != "pvariant" or q[1][:-1] not in (["Self"], ["ast", T], ["ast", T.replace("SimpleValueName", "SimpleValue")]) \
+                        or q[1][-1] not in table:
                     self.no(line, "pattern of a match on %s" % T)
                 ctor, sub = table[q[1][-1]]
                 ctors.add(ctor)
@@ -1782,7 +2010,11 @@ class IxGen:
                 self.no(line, "two arms for the CoreAst constructor %s" % ctor)
             env2 = dict(env)
             cpat = ctor
-            if bound:
+            if bound and bound[1] == "BangOperator":
+                env2[bound[0]] = ("(v_op, v_annot, v_ovs, v_or)", ("node", "BangOperator"))
+            elif bound and " " in ctor:             # the constructor binds its fields under fixed names (see NODES of the sub-node)
+                env2[bound[0]] = ("self", ("node", bound[1]))
+            elif bound:
                 env2[bound[0]] = ("v_" + bound[0], ("node", bound[1]))
                 cpat = "%s v_%s" % (ctor, bound[0])
             groups[ctor] = "%s| %s =>\n%s" % (indent, cpat, self.seq(body[1], 0, body[2], env2, indent + "    "))
@@ -2006,6 +2238,9 @@ def translate(repo):
     sec = ["", "Section IndexRs.",
            "  (* the indexing of child nodes (`child.index(ctx)`): parameters of every rendering below *)"]
     sec.append("  Variable db_files : list (list stmt).      (* the parsed files of the workspace (ctx.db.parse), by file number *)")
+    sec.append("  (* CoreAst flattens a dag into (operator value?) ++ argument values and a !cond into its clause values: *)")
+    sec.append("  Variable dag_split : list value -> option value * list value.")
+    sec.append("  Variable cond_split : list value -> list (option value * option value).")
     for T, rt in IX_RET.items():
         sec.append("  Variable ix_%s : %s -> M %s." % (T, NODE_COQ[T], rt))
     for v in ("Include", "Def", "Defm", "Assert", "Class", "Defset", "Defvar", "Dump", "Foreach", "If", "Let", "MultiClass"):
@@ -2052,6 +2287,11 @@ def translate(repo):
                 env = {"value": ("v_value", ("node", "Value")), "ctx": ("ctx", "ctx")}
                 params = [("v_value", "value")]
                 name, ret = "src_index_name_value", "(name * rng)"
+            elif T in ("Value", "InnerValue"):
+                pn = NODES[T][0][0][0]
+                env = {"self": (pn, ("node", T)), "ctx": ("ctx", "ctx")}
+                params = NODES[T][0]
+                name, ret = "src_ix_" + T, "mty"
             elif T is not None and (T in NODES or T in ENUM_NODES or T in VALUE_ENUMS):
                 env = {"self": ("self", ("node", T)), "ctx": ("ctx", "ctx")}
                 params = NODES[T][0] if T in NODES else [("self_node", ENUM_NODES[T][0] if T in ENUM_NODES else NODE_COQ[T])]
